@@ -90,6 +90,9 @@ func CoerceBool(v Value) bool {
 	case bool:
 		return vc
 	case Boolean:
+		if nilReceiver(vc, "Boolean") {
+			return false
+		}
 		return vc.Boolean()
 	case uint:
 		return vc > 0
@@ -120,11 +123,29 @@ func CoerceBool(v Value) bool {
 	case decimal.Decimal:
 		return vc.GreaterThan(decimal.Zero)
 	case Stringer:
+		if nilReceiver(vc, "String") {
+			return false
+		}
 		return len(vc.String()) > 0
 	case Number:
+		if nilReceiver(vc, "Number") {
+			return false
+		}
 		return vc.Number() > 0
 	}
 	return false
+}
+
+// nilReceiver reports whether v is a nil pointer to a type that declares the
+// named method with a value receiver. Calling such a method through the nil
+// pointer panics, so the value is treated as one that cannot be coerced.
+func nilReceiver(v Value, method string) bool {
+	r := reflect.ValueOf(v)
+	if r.Kind() != reflect.Ptr || !r.IsNil() {
+		return false
+	}
+	_, ok := r.Type().Elem().MethodByName(method)
+	return ok
 }
 
 func stringToFloat(s string) float64 {
@@ -142,6 +163,9 @@ func CoerceNumber(v Value) float64 {
 	case SafeValue:
 		return CoerceNumber(vc.Value())
 	case Number:
+		if nilReceiver(vc, "Number") {
+			return 0
+		}
 		return vc.Number()
 	case uint:
 		return float64(vc)
@@ -171,11 +195,14 @@ func CoerceNumber(v Value) float64 {
 		f, _ := vc.Float64()
 		return f
 	case Stringer:
+		if nilReceiver(vc, "String") {
+			return 0
+		}
 		return stringToFloat(vc.String())
 	case string:
 		return stringToFloat(vc)
 	case Boolean:
-		if vc.Boolean() {
+		if !nilReceiver(vc, "Boolean") && vc.Boolean() {
 			return 1
 		}
 	case bool:
@@ -205,6 +232,9 @@ func CoerceString(v Value) string {
 	case string:
 		return vc
 	case Stringer:
+		if nilReceiver(vc, "String") {
+			return ""
+		}
 		return vc.String()
 	case float32:
 		return formatFloat(float64(vc), 32)
@@ -213,9 +243,12 @@ func CoerceString(v Value) string {
 	case int, int8, int16, int32, int64, uint, uint8, uint16, uint32, uint64:
 		return fmt.Sprintf("%v", vc)
 	case Number:
+		if nilReceiver(vc, "Number") {
+			return ""
+		}
 		return formatFloat(vc.Number(), 64)
 	case Boolean:
-		if vc.Boolean() == true {
+		if !nilReceiver(vc, "Boolean") && vc.Boolean() == true {
 			return "1" // Twig compatibility (aka PHP compatibility)
 		}
 	case bool:
